@@ -213,6 +213,20 @@ pub struct XCallableSpec {
     pub return_type: Arc<XType>,
 }
 
+impl XCallableSpec {
+    /// whether self is the signature of the non-generic `func` called with all of its parameters
+    fn is_full_arity_of(&self, func: &XFuncSpec) -> bool {
+        func.generic_params.is_none()
+            && self.param_types.len() == func.params.len()
+            && self
+                .param_types
+                .iter()
+                .zip(func.params.iter())
+                .all(|(a, b)| a.eq(&b.type_))
+            && self.return_type.eq(&func.ret)
+    }
+}
+
 #[derive(Clone, Debug, Eq, PartialEq)]
 pub struct XFuncSpec {
     pub generic_params: Option<Vec<Identifier>>,
@@ -395,6 +409,10 @@ impl XType {
                 }
                 (_, Self::XUnknown) => Some(self.clone()),
                 (Self::XUnknown, _) => Some(other.clone()),
+                // a function with optional parameters and a callable of its full arity: only the
+                // callable's arity is accepted by both
+                (Self::XCallable(c), Self::XFunc(f)) if c.is_full_arity_of(f) => Some(self.clone()),
+                (Self::XFunc(f), Self::XCallable(c)) if c.is_full_arity_of(f) => Some(other.clone()),
                 (Self::XNative(a, a_bind), Self::XNative(b, b_bind)) => {
                     if a != b {
                         return None;
@@ -755,6 +773,7 @@ impl PartialEq<Self> for XType {
             }
             (Self::XCallable(ref a), Self::XFunc(ref b)) => {
                 b.generic_params.is_none()
+                    && b.params.iter().all(|p| p.required)
                     && a.param_types == b.params.iter().map(|p| p.type_.clone()).collect::<Vec<_>>()
                     && a.return_type.eq(&b.ret)
             }
